@@ -35,6 +35,7 @@ func checkC20(c *Ctx) {
 	checkC20CursorChan(c, p, "")
 	checkC20CancelCache(c)
 	checkC20Round4(c)
+	checkC20ReadKeyReport(c)
 	checkRound5Small(c, "C20")
 	checkSelfDeadlock(c, "C20.self-deadlock")
 	checkChanProtocol(c, "C20.chan")
